@@ -129,6 +129,12 @@ type c45Node struct {
 	pendUnknown map[int]Nonce // undecryptable packet received from peer (at its proper address): nonce to challenge
 	lastNonce   map[int]*Nonce
 	lastMsg     map[int]Packet
+	// decoded objects the "transport" keeps until it acts on them (kept exactly as Decode returned them, no copy)
+	heldChal     *Whoareyou // WHOAREYOU received from the peer, not answered yet
+	heldChalID   int
+	heldChalFrom int
+	heldPing     *Ping  // PING received and decoded, PONG not sent yet
+	heldPingWant []byte // request id the sender put into that PING
 }
 
 type c45Sys struct {
@@ -185,6 +191,7 @@ func (s *c45Sys) resetNode(i int) {
 	n.pendUnknown = map[int]Nonce{}
 	n.lastNonce = map[int]*Nonce{}
 	n.lastMsg = map[int]Packet{}
+	n.heldChal, n.heldPing, n.heldPingWant = nil, nil, nil
 }
 
 func c45ID(i int) enode.ID { return c45Idents[i].ln.ID() }
@@ -207,6 +214,42 @@ func c45IsMessage(p Packet) bool {
 		return false
 	}
 	return true
+}
+
+// c45Junk is an unrelated datagram (>= 63 bytes) that no codec accepts.
+func c45Junk() []byte {
+	b := make([]byte, 160)
+	for i := range b {
+		b[i] = byte(0xA5 ^ (i * 13))
+	}
+	return b
+}
+
+// c45Snapshot serialises everything reachable from a decode result: the packet's fields (through RLP, which
+// covers every exported field of every message type), the fields RLP skips, and the node record.
+func c45Snapshot(p Packet, n *enode.Node) []byte {
+	var b bytes.Buffer
+	if p != nil {
+		b.WriteByte(p.Kind())
+		enc, err := rlp.EncodeToBytes(p)
+		if err != nil {
+			panic(err)
+		}
+		b.Write(enc)
+		if w, ok := p.(*Whoareyou); ok {
+			b.WriteString("|cdata:")
+			b.Write(w.ChallengeData)
+		}
+	}
+	if n != nil {
+		enc, err := rlp.EncodeToBytes(n.Record())
+		if err != nil {
+			panic(err)
+		}
+		b.WriteString("|rec:")
+		b.Write(enc)
+	}
+	return b.Bytes()
 }
 
 // chalLive reports whether the model's challenge of node x for (peer, addr) is outstanding and not timed out.
@@ -254,6 +297,14 @@ func (s *c45Sys) deliver(xi int, p *c45Pkt, fromAddr string) (Packet, error) {
 	before := s.fingerprint(x)
 	src, node, pkt, err := x.codec.Decode(bytes.Clone(p.raw), fromAddr)
 	desc := fmt.Sprintf("%s packet %s->%s delivered to %s from %s", p.kind, c45Names[p.from], c45Names[p.to], c45Names[xi], fromAddr)
+	// result ownership: whatever Decode handed out must not change when the same codec decodes the next datagram
+	if err == nil {
+		snap := c45Snapshot(pkt, node)
+		x.codec.Decode(c45Junk(), c45OtherAddr)
+		if after := c45Snapshot(pkt, node); !bytes.Equal(snap, after) {
+			return pkt, fmt.Errorf("%s: the decoded %s changed when the codec decoded the next (unrelated) datagram: the result aliases a reused buffer\n before %x\n after  %x", desc, pkt.Name(), snap, after)
+		}
+	}
 
 	legit := false
 	switch p.kind {
@@ -280,6 +331,9 @@ func (s *c45Sys) deliver(xi int, p *c45Pkt, fromAddr string) (Packet, error) {
 			s.r.Outcome("handshake:accepted")
 		} else {
 			s.r.Outcome("message:decoded")
+		}
+		if ping, ok := pkt.(*Ping); ok && xi == c45B && p.from == c45A {
+			x.heldPing, x.heldPingWant = ping, bytes.Clone(p.msg.(*Ping).ReqID)
 		}
 	case p.kind == "wru" && p.to == xi:
 		w, ok := pkt.(*Whoareyou)
@@ -468,9 +522,15 @@ func (s *c45Sys) flipSweep(xi int, p *c45Pkt, fromAddr string) error {
 
 var c45Ops = []string{
 	"a>b:ping",         // A encodes a PING for B with whatever keys it has; delivered to B
-	"b:whoareyou>a",    // B challenges A for the last undecryptable packet; A answers with a handshake packet (held back)
+	"b:whoareyou>a",    // B challenges A for the last undecryptable packet; A decodes the WHOAREYOU and keeps it
+	"a:answer",         // A answers the WHOAREYOU it kept (as decoded) with a handshake packet (held back on the wire)
 	"hs>b",             // the held handshake packet reaches B (a second time: replay)
 	"b>a:pong",         // B encodes a PONG for A; delivered to A
+	"b:reply-pong>a",   // B answers the last PING it decoded (request id taken from the decoded object); delivered to A
+	"junk>a",           // an unrelated junk datagram reaches A (between its decoding and its answer)
+	"c>a:packet",       // a valid packet from bystander C reaches A
+	"rejected>a",       // a well-addressed handshake packet that A must reject (no challenge outstanding) reaches A
+	"junk>b",           // an unrelated junk datagram reaches B
 	"rekey",            // complete honest exchange: ping, WHOAREYOU, handshake
 	"replay-msg>b",     // the last A->B message packet reaches B again
 	"msg>c",            // ... reaches bystander C instead
@@ -491,6 +551,10 @@ func (s *c45Sys) Enabled(op int) bool {
 		return ok
 	case "hs>b", "hs>c":
 		return s.hsAB != nil
+	case "a:answer":
+		return s.nodes[c45A].heldChal != nil
+	case "b:reply-pong>a":
+		return s.nodes[c45B].heldPing != nil
 	case "forged-hs>b":
 		return s.nodes[c45B].chal[c45PeerKey{c45A, c45Idents[c45A].addr}] != nil
 	case "replay-msg>b", "msg>c", "msg>b@other":
@@ -543,7 +607,13 @@ func (s *c45Sys) Apply(op int) error {
 		if err != nil {
 			return err
 		}
-		hs, err := s.answer(c45A, c45B, pkt.(*Whoareyou), w.chal)
+		a := s.nodes[c45A]
+		a.heldChal, a.heldChalID, a.heldChalFrom = pkt.(*Whoareyou), w.chal, c45B // the decoded object itself
+		return s.crossCheck()
+	case "a:answer":
+		a := s.nodes[c45A]
+		hs, err := s.answer(c45A, a.heldChalFrom, a.heldChal, a.heldChalID)
+		a.heldChal = nil
 		if err != nil {
 			return err
 		}
@@ -551,6 +621,42 @@ func (s *c45Sys) Apply(op int) error {
 			s.hsAB = hs
 		}
 		return s.crossCheck()
+	case "b:reply-pong>a":
+		b := s.nodes[c45B]
+		ping, want := b.heldPing, b.heldPingWant
+		b.heldPing, b.heldPingWant = nil, nil
+		if !bytes.Equal(ping.ReqID, want) {
+			return fmt.Errorf("the PING B decoded earlier now has request id %x, it was sent with %x: decoded message changed while held", ping.ReqID, want)
+		}
+		s.reqs++
+		p, err := s.send(c45B, c45A, &Pong{ReqID: ping.ReqID, ENRSeq: ping.ENRSeq, ToIP: net.IP{10, 0, 0, 1}, ToPort: 30303})
+		if err != nil {
+			return err
+		}
+		if _, err := s.deliver(c45A, p, addrB); err != nil {
+			return err
+		}
+	case "junk>a", "junk>b":
+		to := c45A
+		if c45Ops[op] == "junk>b" {
+			to = c45B
+		}
+		raw := c45Junk()
+		raw[0] ^= byte(s.reqs) // not the same bytes as the ownership probe
+		_, err := s.deliver(to, &c45Pkt{raw: raw, from: c45C, to: to, kind: "junk"}, c45Idents[c45C].addr)
+		return err
+	case "c>a:packet":
+		p, err := s.send(c45C, c45A, s.nextPing())
+		if err != nil {
+			return err
+		}
+		_, err = s.deliver(c45A, p, c45Idents[c45C].addr)
+		return err
+	case "rejected>a":
+		msg := s.nextPing()
+		raw := c45CraftHandshake(c45A, c45ID(c45C), c45Idents[c45C].key, c45RecordBytes(c45C), bytes.Repeat([]byte{0x5c}, 63), c45EphKeys[13], msg)
+		_, err := s.deliver(c45A, &c45Pkt{raw: raw, from: c45C, to: c45A, kind: "forged-hs", msg: msg}, c45Idents[c45C].addr)
+		return err
 	case "hs>b":
 		_, err := s.deliver(c45B, s.hsAB, addrA)
 		return err
@@ -564,7 +670,7 @@ func (s *c45Sys) Apply(op int) error {
 		_, err := s.deliver(c45B, &c45Pkt{raw: raw, from: c45A, to: c45B, kind: "forged-hs", msg: msg}, addrA)
 		return err
 	case "rekey":
-		for _, sub := range []string{"a>b:ping", "b:whoareyou>a", "hs>b"} {
+		for _, sub := range []string{"a>b:ping", "b:whoareyou>a", "a:answer", "hs>b"} {
 			i := c45OpIndex(sub)
 			en := s.Enabled(i)
 			s.final = false
@@ -638,6 +744,12 @@ func (s *c45Sys) Key() string {
 		fmt.Fprintf(&sb, "B.pend matchesLastReq=%v ", a.lastNonce[c45B] != nil && *a.lastNonce[c45B] == n)
 	}
 	fmt.Fprintf(&sb, "A.hasReq=%v nextChalParity=%d ", a.lastNonce[c45B] != nil, (s.chals+1)%2)
+	if w := a.heldChal; w != nil {
+		fmt.Fprintf(&sb, "A.heldChal=c%d matchesLastReq=%v ", cid(a.heldChalID), a.lastNonce[c45B] != nil && *a.lastNonce[c45B] == w.Nonce)
+	}
+	if b.heldPing != nil {
+		sb.WriteString("B.heldPing ")
+	}
 	if p := s.msgAB; p != nil {
 		fmt.Fprintf(&sb, "msgAB=%s/%d ", p.kind, kid(p.kid))
 	}
